@@ -485,7 +485,15 @@ def judge(cases):
     return cases
 
 
-FINDING_OF_KIND = {"dropped": "C09-F2", "nonidempotent": "C09-F3"}
+FINDING_OF_KIND = {"dropped": "C09-F2", "nonidempotent": "C09-F3"}   # C09-F4: see classify
+
+
+def only_empty_line_comments_added(o1, o2):
+    """Signature of C09-F4: the second pass differs from the first only by additional lines that are an
+    empty line comment `//`."""
+    import difflib
+    diff = [l for l in difflib.ndiff(o1.splitlines(), o2.splitlines()) if l[:1] in "+-"]
+    return bool(diff) and all(l.startswith("+ ") and l[2:].strip() == "//" for l in diff)
 
 
 def load_contexts():
@@ -499,6 +507,8 @@ def classify(ctxs, c):
     a token gap whose 4-token context is recorded for that failure kind; a context never seen by the
     reference enumeration falls back to the 2-token context."""
     k = c["fail"]
+    if k == "nonidempotent" and only_empty_line_comments_added(c.get("out") or "", c.get("out2") or ""):
+        return "C09-F4"
     if c["ctx4"] in ctxs["known4"].get(k, []):
         return FINDING_OF_KIND.get(k)
     if c["ctx4"] in ctxs["ok4_set"]:
